@@ -107,6 +107,10 @@ def generated(tier):
 
 
 HAND = [
+    ('def-selfref', '''(declare-const y Int)
+(define-fun f () Int (+ y 1))
+(assert (= y f))
+'''),
     ('bv-ext', '''(declare-const x (_ BitVec 4))
 (declare-const y (_ BitVec 8))
 (assert (= ((_ zero_extend 4) ((_ zero_extend 2) ((_ extract 2 1) x))) y))
